@@ -71,6 +71,12 @@ def cases(ctx):
         for sh in (0, 1, 9):
             for b in ({'bs': 2}, {'nb': 3}, {'nb': 4}, {}):
                 out.append(gen_history(rng, force={'cases': cs, 'ctor_shuffle': sh, 'sow_shuffle': sh and 3, 'batching': b}))
+    # in-batch parallel growing (what cluster scripts with num_workers do) with staggered run times
+    for _ in range(6 if ctx.tier == 'quick' else 40):
+        h = gen_history(rng, force={'batching': {'bs': rng.randint(3, 5)}})
+        for op in h['ops']:
+            if op['op'] == 'grow': op['via'] = 'workers'
+        out.append(h)
     n = 700 if ctx.tier == 'quick' else 8000
     for i in range(n):
         out.append(gen_history(rng, heavy=(i % 40 == 0)))
